@@ -107,6 +107,96 @@ fn stages(sh: &mut x::shell::Shell, line: &str, cheap_only: bool) -> Value {
     json!({"failed": failed})
 }
 
+// ---- C06: replay of JobControl paths through the fake kernel ----
+fn job_snapshot(sh: &x::shell::Shell) -> Value {
+    let mut m = serde_json::Map::new();
+    let mut ids: Vec<&i32> = sh.jobs.keys().collect();
+    ids.sort();
+    for id in ids {
+        let j = &sh.jobs[id];
+        let mut st: Vec<i32> = j.pids_stopped.iter().cloned().collect();
+        st.sort();
+        m.insert(id.to_string(), json!({"id": j.id, "gid": j.gid, "pids": j.pids, "stp": st, "status": j.status, "bg": j.is_bg}));
+    }
+    Value::Object(m)
+}
+
+fn push_reports(v: &Value) {
+    if let Some(a) = v.as_array() {
+        for r in a {
+            let pid = r[0].as_i64().unwrap_or(0) as i32;
+            let kind = r[1].as_i64().unwrap_or(0) as i32;
+            let val = r[2].as_i64().unwrap_or(0) as i32;
+            vhk::fake_push((pid, kind, val));
+        }
+    }
+}
+
+fn jobs_case(case: &Value) -> Value {
+    let mut sh = x::shell::Shell::new();
+    vhk::install_fake_kernel();
+    let mut out: Vec<Value> = Vec::new();
+    let empty = Vec::new();
+    for call in case.get("calls").and_then(|c| c.as_array()).unwrap_or(&empty) {
+        vhk::fake_reset_flags();
+        let op = call.get("op").and_then(|v| v.as_str()).unwrap_or("");
+        let mut status: Value = Value::Null;
+        let mut newid: Value = Value::Null;
+        let r = catch_unwind(AssertUnwindSafe(|| match op {
+            "launch" => {
+                let gid = call["gid"].as_i64().unwrap_or(0) as i32;
+                let pids: Vec<i32> = call["pids"].as_array().map(|a| a.iter().map(|v| v.as_i64().unwrap_or(0) as i32).collect()).unwrap_or_default();
+                let bg = call["bg"].as_bool().unwrap_or(false);
+                for p in &pids {
+                    sh.insert_job(gid, *p, "cmd", "Running", bg);
+                }
+                if let Some(j) = sh.get_job_by_gid(gid) {
+                    newid = json!(j.id);
+                }
+                if !bg {
+                    unsafe { x::shell::give_terminal_to(gid); }
+                    push_reports(&call["reports"]);
+                    let cr = x::jobc::wait_fg_job(&mut sh, gid, &pids);
+                    status = json!(cr.status);
+                    let (_, blocked, _, _) = vhk::fake_state();
+                    if !blocked {
+                        unsafe { x::shell::give_terminal_to(1); }
+                    }
+                }
+            }
+            "poll" => {
+                push_reports(&call["reports"]);
+                x::jobc::try_wait_bg_jobs(&mut sh, true, false);
+            }
+            "fg" | "bg" => {
+                push_reports(&call["pre"]);
+                vhk::fake_push((0, 9, 0));
+                push_reports(&call["reports"]);
+                let line = format!("{} {}", op, call["id"].as_i64().unwrap_or(0));
+                if let Ok(cl) = x::types::CommandLine::from_line(&line, &mut sh) {
+                    let cr = if op == "fg" {
+                        x::b_fg::run(&mut sh, &cl, &cl.commands[0], false)
+                    } else {
+                        x::b_bg::run(&mut sh, &cl, &cl.commands[0], false)
+                    };
+                    status = json!(cr.status);
+                }
+            }
+            _ => {}
+        }));
+        let (left, blocked, consumed, tty) = vhk::fake_state();
+        let maps = x::signals::verif_snapshot_maps();
+        let mut o = json!({"op": op, "jobs": job_snapshot(&sh), "maps": [maps.0, maps.1, maps.2, maps.3],
+            "left": left, "blocked": blocked, "consumed": consumed, "tty": tty, "status": status, "newid": newid});
+        if let Err(e) = r {
+            o["panic"] = json!(panic_msg(e));
+        }
+        out.push(o);
+    }
+    vhk::remove_fake_kernel();
+    json!({"calls": out})
+}
+
 fn main() {
     let args: Vec<String> = std::env::args().collect();
     let mode = args.get(1).cloned().unwrap_or_default();
@@ -147,6 +237,10 @@ fn main() {
         let line = case.get("line").and_then(|v| v.as_str()).unwrap_or("").to_string();
         let mut res = match mode.as_str() {
             "plan" => match catch_unwind(AssertUnwindSafe(|| plan_line(&mut sh, &line))) {
+                Ok(v) => v,
+                Err(e) => json!({"panic": panic_msg(e)}),
+            },
+            "jobs" => match catch_unwind(AssertUnwindSafe(|| jobs_case(&case))) {
                 Ok(v) => v,
                 Err(e) => json!({"panic": panic_msg(e)}),
             },
